@@ -603,6 +603,14 @@ func RunParent(id, tier string, seed int64, exe, raceExe string) int {
 						}
 					}
 					// abnormal end
+					mu.Lock()
+					settled := len(crashViol) > 0
+					mu.Unlock()
+					if settled {
+						// a crash, hang or deadlock of this run has already been confirmed: the verdict is a
+						// violation whatever this shard would add; do not spend another confirmation on it
+						return
+					}
 					last, _ := lastJournalCase(filepath.Join(p.Dir, "journal-"+tag))
 					stderrTail := tail(stderrPath, 6000)
 					sig, isCrash := crashSig(head(stderrPath, 200000))
@@ -661,6 +669,12 @@ func RunParent(id, tier string, seed int64, exe, raceExe string) int {
 						mu.Unlock()
 					}
 					if last < 0 {
+						return
+					}
+					mu.Lock()
+					settled = len(crashViol) > 0
+					mu.Unlock()
+					if settled {
 						return
 					}
 					from = last + 1
